@@ -675,9 +675,11 @@ class KMIPProxy(object):
                                            | operation result.
         """
         # TODO (peter-hamilton) Push this into the Check request.
-        mask = 0
-        for m in cryptographic_usage_mask:
-            mask |= m.value
+        mask = None
+        if cryptographic_usage_mask is not None:
+            mask = 0
+            for m in cryptographic_usage_mask:
+                mask |= m.value
 
         operation = Operation(OperationEnum.CHECK)
         request_payload = payloads.CheckRequestPayload(
@@ -700,17 +702,17 @@ class KMIPProxy(object):
 
         if payload:
             result['unique_identifier'] = payload.unique_identifier
-        if payload.usage_limits_count is not None:
-            result['usage_limits_count'] = payload.usage_limits_count
-        if payload.cryptographic_usage_mask is not None:
-            # TODO (peter-hamilton) Push this into the Check response.
-            masks = []
-            for enumeration in enums.CryptographicUsageMask:
-                if payload.cryptographic_usage_mask & enumeration.value:
-                    masks.append(enumeration)
-            result['cryptographic_usage_mask'] = masks
-        if payload.lease_time is not None:
-            result['lease_time'] = payload.lease_time
+            if payload.usage_limits_count is not None:
+                result['usage_limits_count'] = payload.usage_limits_count
+            if payload.cryptographic_usage_mask is not None:
+                # TODO (peter-hamilton) Push this into the Check response.
+                masks = []
+                for enumeration in enums.CryptographicUsageMask:
+                    if payload.cryptographic_usage_mask & enumeration.value:
+                        masks.append(enumeration)
+                result['cryptographic_usage_mask'] = masks
+            if payload.lease_time is not None:
+                result['lease_time'] = payload.lease_time
 
         result['result_status'] = batch_item.result_status.value
         try:
@@ -1398,9 +1400,14 @@ class KMIPProxy(object):
     def _process_discover_versions_batch_item(self, batch_item):
         payload = batch_item.response_payload
 
+        # A failed operation comes back without a response payload.
+        protocol_versions = None
+        if payload is not None:
+            protocol_versions = payload.protocol_versions
+
         result = DiscoverVersionsResult(
             batch_item.result_status, batch_item.result_reason,
-            batch_item.result_message, payload.protocol_versions)
+            batch_item.result_message, protocol_versions)
 
         return result
 
